@@ -14,7 +14,8 @@ for sid in ids:
     props=[prop]+info.get('also',[])
     r=subprocess.run(['/verif/tools/run_seed.sh', os.path.join(d,'patch.diff')]+props,capture_output=True,text=True)
     out=r.stdout.strip()
-    caught=any(('violations=' in l and 'violations=0' not in l) for l in out.split('\n'))
+    # caught = the quick check of the seed's OWN property reports a violation (the checks of other properties are informative only)
+    caught=any((l.strip().startswith(prop+':') and 'violations=0' not in l) for l in out.split('\n'))
     files=[l[6:] for l in open(os.path.join(d,'patch.diff')) if l.startswith('+++ b/')]
     meta={'seed':sid,'breaks_property':prop,'files':files,'change':info.get('change',''),'needs_to_manifest':info.get('needs',''),
           'confirmation':{'how':'tools/confirm_seed.sh in a scratch worktree of /repo at the original snapshot: demo on original (must pass), build with change, demo with change (must fail), existing suite with change (must pass)','result':conf},
